@@ -405,6 +405,15 @@ impl Ctx {
 
     /// Records a violation under a finding key `<prop>|<site>|<class>`.
     pub fn violation(&mut self, key: &str, what: String) {
+        // `--opt relabel=C10:C14`: the same engine serving another property reports under that property's id
+        let relabelled;
+        let key = match self.opts.get("relabel").and_then(|r| r.split_once(':')) {
+            Some((from, to)) if key.starts_with(from) => {
+                relabelled = format!("{to}{}", &key[from.len()..]);
+                relabelled.as_str()
+            }
+            _ => key,
+        };
         let idx = self.cur_idx();
         let desc = self.cur_desc.clone();
         let v = self.violations.entry(key.to_string()).or_insert(Violation { count: 0, examples: vec![] });
